@@ -145,8 +145,8 @@ def _spec_verdict(model_lines, impl_lines):
 
 
 def _replays(ctx, go, model):
-    n_gen = ctx.pick(260, 3000)
-    budget_blocked = ctx.pick(700, 12000)     # total number of "blocked" confirmations (120 ms each)
+    n_gen = ctx.pick(420, 3000)
+    budget_blocked = ctx.pick(1300, 12000)     # total number of "blocked" confirmations (120 ms each)
     shards = 14
     ops = ctx.path("scen.ops")
     with open(ops, "w") as h:
@@ -268,7 +268,7 @@ def _report_replay(ctx, confirmed):
 
 def _stress(ctx, go, model, race=False):
     procs_n = ctx.pick(8, 14) if not race else ctx.pick(3, 8)
-    rounds = (ctx.pick(60, 1500) if not race else ctx.pick(8, 120))
+    rounds = (ctx.pick(150, 1500) if not race else ctx.pick(15, 120))
     runs = []
     for i in range(procs_n):
         e = ctx.goenv()
